@@ -113,8 +113,8 @@ def realOf : String → Option RealFn
 
 /-- Parses an instruction line.  For `var` the value is returned separately (it belongs to the
     input point, not to the program). -/
-def parseInstr (names : Names) (toks : List String) : Option (Instr R × Option R) :=
-  let nameIdx := names.find
+def parseInstrWith (nameIdx : String → Option Nat) (toks : List String) :
+    Option (Instr R × Option R) :=
   let parseRefs := fun (s : String) => (splitComma s).mapM nameIdx
   match toks with
   | "const" :: _ :: v :: _ => (Elem.parse v).map fun c => (.const c, none)
@@ -161,6 +161,9 @@ def parseInstr (names : Names) (toks : List String) : Option (Instr R × Option 
     | some f => (nameIdx a).map fun a => (.real f a, none)
     | none => none
   | _ => none
+
+def parseInstr (names : Names) (toks : List String) : Option (Instr R × Option R) :=
+  parseInstrWith names.find toks
 
 /-- is the first token an instruction keyword (then a parse failure is a dangling operand) -/
 def knownOp (toks : List String) : Bool :=
